@@ -101,6 +101,7 @@ def S_is_equal(e, I, O):
 
 def S_is_zero(e, I, O):
     x = split(e, I)[0]
+    e.zero_rep_lemma(list(x))
     return AND(isbit(O[0]), eq(O[0], b2i(eq(res(e, x), 0))))
 
 
